@@ -22,8 +22,9 @@ def _sample(ctx, f, n=2):
                 ctx.cov["samples"].append(j)
 
 
-def _canary(ctx, module, env, src, mutate, want=200):
-    rows = vlib.read_ndjson(src)
+def _canary(ctx, module, env, src, mutate, want=200, skip=()):
+    """corrupt accepted observations (lines in skip were rejected: corrupting those could make them right)"""
+    rows = [r for i, r in enumerate(vlib.read_ndjson(src)) if (i + 1) not in skip]
     rnd = random.Random(ctx.seed)
     rnd.shuffle(rows)
     out = []
@@ -96,14 +97,14 @@ def run_c06(ctx, replay):
         j = rnd.randrange(len(e["vs"]))
         e["vs"][j] = 1 - e["vs"][j] if e["vs"][j] in (0, 1) else 0
         return e
-    _canary(ctx, "CalJudge", {"DIR": gen, "KIND": "vec"}, files[0], mut_vec, want=60)
+    _canary(ctx, "CalJudge", {"DIR": gen, "KIND": "vec"}, files[0], mut_vec, want=60, skip={ln for f, ln, _ in rej if f == files[0]})
 
     def mut_fl(e, rnd):
         if e["k"] != "vec" or not e["fl"]:
             return None
         e["fl"] = e["fl"][1:]
         return e
-    _canary(ctx, "CalJudge", {"DIR": gen, "KIND": "vec"}, files[1 % len(files)], mut_fl, want=30)
+    _canary(ctx, "CalJudge", {"DIR": gen, "KIND": "vec"}, files[1 % len(files)], mut_fl, want=30, skip={ln for f, ln, _ in rej if f == files[1 % len(files)]})
 
     pair_runs = [("overlap", "overlap", ["-unit", 3600]), ("overlap", "overlap-z3", ["-unit", 3600, "-zone", 10800]),
                  ("overlap", "overlap-z9", ["-unit", 1800, "-zone", -34200]), ("rec", "rec-daily", ["-unit", 43200, "-freq", "DAILY"]),
@@ -122,7 +123,7 @@ def run_c06(ctx, replay):
             def mut_pair(e, rnd):
                 e["v"] = 1 - e["v"] if e["v"] in (0, 1) else 0
                 return e
-            _canary(ctx, "CalJudge", {"DIR": gen, "KIND": kind}, f, mut_pair, want=100)
+            _canary(ctx, "CalJudge", {"DIR": gen, "KIND": kind}, f, mut_pair, want=100, skip={ln for _, ln, _ in rej})
             _sample(ctx, f, 1)
 
     sigs = {}
@@ -211,7 +212,7 @@ def run_c07(ctx, replay):
                         else:
                             e["idx"] = [1]; e["names"] = [["VERSION"]]
                         return e
-                    _canary(ctx, "CardJudge", {"DIR": gen, "KIND": kind}, f, mut_f, want=150)
+                    _canary(ctx, "CardJudge", {"DIR": gen, "KIND": kind}, f, mut_f, want=150, skip={ln for _, ln, _ in rej})
                 else:
                     def mut_m(e, rnd):
                         if e["k"] != "vec":
@@ -220,7 +221,7 @@ def run_c07(ctx, replay):
                         j = rnd.randrange(len(e["vs"]))
                         e["vs"][j] = 3
                         return e
-                    _canary(ctx, "CardJudge", {"DIR": gen, "KIND": kind}, f, mut_m, want=150)
+                    _canary(ctx, "CardJudge", {"DIR": gen, "KIND": kind}, f, mut_m, want=150, skip={ln for _, ln, _ in rej})
     sigs = {}
     if rejects:
         qs = {"m1": vlib.read_ndjson(gen + "/q1.ndjson"), "m2": vlib.read_ndjson(gen + "/q2.ndjson")}
